@@ -95,7 +95,7 @@ func c10Echo(v string, d *rules.DNSRewrite) string {
 	}
 	val := parts[2]
 	num := func(s string) (uint16, bool) {
-		if s == "" || len(s) > 5 {
+		if s == "" {
 			return 0, false
 		}
 		n := 0
@@ -103,9 +103,11 @@ func c10Echo(v string, d *rules.DNSRewrite) string {
 			if ch < '0' || ch > '9' {
 				return 0, false
 			}
-			n = n*10 + int(ch-'0')
+			if n = n*10 + int(ch-'0'); n > 65535 {
+				return 0, false
+			}
 		}
-		return uint16(n), n <= 65535
+		return uint16(n), true
 	}
 	fields := strings.Split(val, " ")
 	switch x := d.Value.(type) {
@@ -122,7 +124,11 @@ func c10Echo(v string, d *rules.DNSRewrite) string {
 		}
 	case *rules.DNSMX:
 		if len(fields) == 2 {
-			if n, ok := num(fields[0]); ok && (x.Preference != n || x.Exchange != fields[1]) {
+			n, ok := num(fields[0])
+			if !ok {
+				return fmt.Sprintf("MX preference %q is not a decimal number up to 65535, yet the value is accepted (as %d)", fields[0], x.Preference)
+			}
+			if x.Preference != n || x.Exchange != fields[1] {
 				return fmt.Sprintf("MX value {%d %q} for the written %q", x.Preference, x.Exchange, val)
 			}
 		}
@@ -131,22 +137,38 @@ func c10Echo(v string, d *rules.DNSRewrite) string {
 			a, ok1 := num(fields[0])
 			b, ok2 := num(fields[1])
 			p, ok3 := num(fields[2])
+			if !ok1 || !ok2 || !ok3 {
+				return fmt.Sprintf("an SRV number in %q is not a decimal number up to 65535, yet the value is accepted", val)
+			}
 			if ok1 && ok2 && ok3 && (x.Priority != a || x.Weight != b || x.Port != p || x.Target != fields[3]) {
 				return fmt.Sprintf("SRV value {%d %d %d %q} for the written %q", x.Priority, x.Weight, x.Port, x.Target, val)
 			}
 		}
 	case *rules.DNSSVCB:
 		if len(fields) >= 2 {
-			if n, ok := num(fields[0]); ok && (x.Priority != n || x.Target != fields[1]) {
+			n, ok := num(fields[0])
+			if !ok {
+				return fmt.Sprintf("HTTPS/SVCB priority %q is not a decimal number up to 65535, yet the value is accepted (as %d)", fields[0], x.Priority)
+			}
+			if x.Priority != n || x.Target != fields[1] {
 				return fmt.Sprintf("HTTPS/SVCB value {%d %q} for the written %q", x.Priority, x.Target, val)
 			}
-			// every written parameter is reproduced: key=value with the value as written
-			written := map[string]bool{}
+			// every written parameter is reproduced: key=value with the value as
+			// written, or without the double quotes around it; the last one of a
+			// repeated key stands
+			written := map[string]string{}
 			for _, f := range fields[2:] {
-				k, _, _ := strings.Cut(f, "=")
-				written[k] = true
-				if v, ok := x.Params[k]; !ok || k+"="+v != f {
-					return fmt.Sprintf("HTTPS/SVCB parameter %q read as %q=%q", f, k, v)
+				k, v, _ := strings.Cut(f, "=")
+				written[k] = v
+			}
+			for k, wv := range written {
+				v, ok := x.Params[k]
+				unq := wv
+				if len(unq) >= 2 && unq[0] == '"' && unq[len(unq)-1] == '"' {
+					unq = unq[1 : len(unq)-1]
+				}
+				if !ok || (v != wv && v != unq) {
+					return fmt.Sprintf("HTTPS/SVCB parameter %s=%s read as %q=%q", k, wv, k, v)
 				}
 			}
 			if len(written) != len(x.Params) {
